@@ -533,7 +533,7 @@ def _const_args(fx, body, poll_bb):
             if len(os_) == 1 and next(iter(os_)).kind == "agg" and not next(iter(os_)).proj:
                 st = body.blocks[next(iter(os_)).site[0]]["s"][next(iter(os_)).site[1]]
                 r = st["r"]
-                if r.get("ak") == "adt" and r.get("variant") and (r.get("def") or "").split("::")[0] not in ("core", "alloc", "std"):
+                if r.get("ak") == "adt" and r.get("variant") and ((r.get("def") or "").split("::")[0] not in ("core", "alloc", "std") or r.get("def") == "core::option::Option"):
                     out[i] = (r["variant"], (body, st))
     return out
 
